@@ -33,7 +33,42 @@ func headerFieldAddr(v ssa.Value, pkt ssa.Value, name string) bool {
 	return ok && f.Name() == name && isHeaderOf(hb, pkt)
 }
 
-func rulePadShape(p *Program, r *Result) {
+// bodyDerived: v is p.Body, or a (re)slice of it, possibly chosen among such alternatives.
+func bodyDerived(v ssa.Value, pkt ssa.Value, depth int) bool {
+	if depth == 0 {
+		return false
+	}
+	switch x := v.(type) {
+	case *ssa.Slice:
+		return bodyDerived(x.X, pkt, depth-1)
+	case *ssa.Phi:
+		n := 0
+		for _, e := range x.Edges {
+			if e == ssa.Value(x) {
+				continue
+			}
+			if !bodyDerived(e, pkt, depth-1) {
+				return false
+			}
+			n++
+		}
+		return n > 0
+	}
+	f, base, ok := loadedField(v)
+	return ok && f.Name() == "Body" && base == pkt
+}
+
+// rulePadShape decides the clauses named in parts: a clear flag, b hash input, c pad length, d xor in place,
+// e nothing else written, f call sites.
+func rulePadShape(p *Program, r *Result, parts string) {
+	full := r
+	want := func(c string) *Result {
+		if strings.Contains(parts, c) {
+			return full
+		}
+		return newResult("discard")
+	}
+
 	ro := rolesOK(p, r)
 	unenc, okU := p.rootConst("UnencryptedFlag")
 	if !okU {
@@ -81,7 +116,7 @@ func rulePadShape(p *Program, r *Result) {
 				}
 			}
 		}
-		r.cond(aOK, "R-PADSHAPE", key+":a:clear-flag-first", pos,
+		want("a").cond(aOK, "R-PADSHAPE", key+":a:clear-flag-first", pos,
 			"the first decision of the pad function is Header.Flags.Has(UnencryptedFlag); when set it returns nil at once: the body travels verbatim whatever the secret",
 			"the pad function does not start with 'if Header.Flags.Has(UnencryptedFlag) { return nil }'")
 		// (b) hash input order
@@ -181,7 +216,7 @@ func rulePadShape(p *Program, r *Result) {
 				bOK, why = false, "Sum is not called with nil"
 			}
 		}
-		r.cond(bOK, "R-PADSHAPE", key+":b:hash-input-order", pos,
+		want("b").cond(bOK, "R-PADSHAPE", key+":b:hash-input-order", pos,
 			"each round hashes, in this order: session id (big-endian), key, version octet, sequence octet, previous digest (none on the first round) — RFC 8907 §4.5",
 			"the pad is not MD5{session_id, key, version, seq_no [, previous digest]}: "+why)
 		// (c) pad accumulation and truncation to Header.Length
@@ -247,7 +282,7 @@ func rulePadShape(p *Program, r *Result) {
 				whyC = fmt.Sprintf("digest appended to the pad: %v, truncation pad[:int(Header.Length)]: %v, loop 'for len(pad) < int(Header.Length)': %v", good, trunc, loopOK)
 			}
 		}
-		r.cond(cOK, "R-PADSHAPE", key+":c:pad-truncated-to-length", pos,
+		want("c").cond(cOK, "R-PADSHAPE", key+":c:pad-truncated-to-length", pos,
 			"digests are concatenated until the pad reaches Header.Length and the pad is truncated to exactly Header.Length",
 			"the pad is not the concatenation of the digests truncated to Header.Length: "+whyC)
 		// (d,e) XOR in place over exactly the body, nothing else written
@@ -265,7 +300,7 @@ func rulePadShape(p *Program, r *Result) {
 				}
 				_ = root
 				if ia, ok := st.Addr.(*ssa.IndexAddr); ok {
-					if f, base, ok := loadedField(ia.X); ok && f.Name() == "Body" && base == pkt {
+					if bodyDerived(ia.X, pkt, 6) {
 						nBodyStores++
 						// value: Body[i] ^ pad[i]
 						if bo, ok := st.Val.(*ssa.BinOp); ok && bo.Op == token.XOR && padPhi != nil {
@@ -298,10 +333,10 @@ func rulePadShape(p *Program, r *Result) {
 				nOther++
 			}
 		}
-		r.cond(dOK && nBodyStores == 1, "R-PADSHAPE", key+":d:xor-in-place", pos,
+		want("d").cond(dOK && nBodyStores == 1, "R-PADSHAPE", key+":d:xor-in-place", pos,
 			"the only write to the body is Body[i] = Body[i] ^ pad[i] for i over the body: applying the function twice with the same header and secret is the identity",
 			fmt.Sprintf("the body is not obfuscated by exactly Body[i] ^= pad[i] (%d stores into Body)", nBodyStores))
-		r.cond(nOther == 0, "R-PADSHAPE", key+":e:header-untouched", pos,
+		want("e").cond(nOther == 0, "R-PADSHAPE", key+":e:header-untouched", pos,
 			"the pad function stores to nothing but its own buffers and the body octets: header bytes and Header.Length are never altered by obfuscation",
 			fmt.Sprintf("the pad function writes to %d locations other than its own buffers and Body[i] (header fields or the Body slice itself)", nOther))
 		// no call that receives the packet or header and could modify them
@@ -315,11 +350,17 @@ func rulePadShape(p *Program, r *Result) {
 			}
 			_ = f
 		}
-		r.cond(esc == "", "R-PADSHAPE", key+":e:packet-not-passed-on", pos, "the packet is not handed to any other function inside the pad function", "the packet is passed to "+esc+" inside the pad function")
+		want("e").cond(esc == "", "R-PADSHAPE", key+":e:packet-not-passed-on", pos, "the packet is not handed to any other function inside the pad function", "the packet is passed to "+esc+" inside the pad function")
 	}
 	// (f) placement and secret at call sites
-	rulePadCallSites(p, r)
-	r.floor("R-PADSHAPE", 9)
+	if strings.Contains(parts, "f") {
+		rulePadCallSites(p, r)
+	}
+	if parts == "abcdef" {
+		r.floor("R-PADSHAPE", 9)
+	} else {
+		r.floor("R-PADSHAPE", len(parts))
+	}
 }
 
 // isHeaderLen: v is int(p.Header.Length) (or the same value).
@@ -421,6 +462,12 @@ func rulePadCallSites(p *Program, r *Result) {
 				var dec *ssa.Call
 				for dc := range decodeCalls(fn, "Packet") {
 					dec = dc
+				}
+				if dec == nil {
+					// a reader that decodes the header on its own and attaches the body itself
+					for dc := range decodeCalls(fn, "Header") {
+						dec = dc
+					}
 				}
 				var det ssa.CallInstruction
 				for _, c2 := range allCalls(fn) {
